@@ -9,13 +9,13 @@ import (
 // SleeperCfg bounds the family F-sleeper: sequential gossip (every event takes its creator's tip and
 // the latest event of every other *active* validator) in three phases:
 //
-//	1. everybody emits a first event (in every rotation of the validator order); optionally one
-//	   validator forks right away (two events with the same self-parent, one of them never referenced
-//	   or referenced only by a chosen validator);
-//	2. one validator (every choice) sleeps for K rounds (every K in MinSleep..MaxSleep) while the others gossip;
-//	3. the sleeper returns with an event whose only other parent is ONE existing event (every choice of
-//	   that event, i.e. arbitrarily stale knowledge, including events of already decided frames), or with
-//	   the latest events of everybody; then everybody gossips for Tail rounds.
+//  1. everybody emits a first event (in every rotation of the validator order); optionally one
+//     validator forks right away (two events with the same self-parent, one of them never referenced
+//     or referenced only by a chosen validator);
+//  2. one validator (every choice) sleeps for K rounds (every K in MinSleep..MaxSleep) while the others gossip;
+//  3. the sleeper returns with an event whose only other parent is ONE existing event (every choice of
+//     that event, i.e. arbitrarily stale knowledge, including events of already decided frames), or with
+//     the latest events of everybody; then everybody gossips for Tail rounds.
 //
 // It covers the situations a node that was offline creates: frame-jumping roots, references to old
 // decided Atropoi, votes that arrive long after the election moved on.
@@ -33,29 +33,64 @@ type SleeperCfg struct {
 	// TwoForkers: (with Forks) additionally every pair of different forkers, each fork branch referenced by
 	// nobody or by one chosen validator
 	TwoForkers bool
+	// LateForks: (with Forks) additionally forks that happen during the sleeping phase: in round r (every r in
+	// LateForkMin..LateForkMax, 1-based) the forker emits two siblings, the live one with the usual parents and a second one that
+	// lacks the tip of one other validator (every choice): both siblings are usually roots of the same frame and
+	// vote differently.  The second sibling is referenced by nobody or by one chosen validator.
+	LateForks   bool
+	LateForkMin int
+	LateForkMax int
+	OnlyLate    bool // drop the fork-free and the initial-fork variants (they belong to another configuration)
 }
 
 // GenSleeper enumerates the family.
 func GenSleeper(cfg SleeperCfg, mine func(i int) bool, visit func(d *lref.DAG, desc string)) int {
 	n := len(cfg.W.W)
 	total, idx := 0, 0
-	type oneFork struct{ forker, adopter int }
+	type oneFork struct{ forker, adopter, round, missing int }
 	type forkMode []oneFork
 	forkModes := []forkMode{nil}
+	var lateSingles []oneFork
 	if cfg.Forks {
 		var singles []oneFork
 		for f := 0; f < n; f++ {
 			if uint64(cfg.W.W[f])*3 >= totalW(cfg.W.W) {
 				continue
 			}
-			singles = append(singles, oneFork{f, -1})
+			singles = append(singles, oneFork{f, -1, -1, -1})
 			for a := 0; a < n; a++ {
 				if a != f {
-					singles = append(singles, oneFork{f, a})
+					singles = append(singles, oneFork{f, a, -1, -1})
 				}
 			}
 		}
+		if cfg.LateForks {
+			for f := 0; f < n; f++ {
+				if uint64(cfg.W.W[f])*3 >= totalW(cfg.W.W) {
+					continue
+				}
+				for r := cfg.LateForkMin; r <= cfg.LateForkMax; r++ {
+					for m := 0; m < n; m++ {
+						if m == f {
+							continue
+						}
+						lateSingles = append(lateSingles, oneFork{f, -1, r, m})
+						for a := 0; a < n; a++ {
+							if a != f {
+								lateSingles = append(lateSingles, oneFork{f, a, r, m})
+							}
+						}
+					}
+				}
+			}
+		}
+		if cfg.OnlyLate {
+			forkModes, singles = nil, nil
+		}
 		for _, s1 := range singles {
+			forkModes = append(forkModes, forkMode{s1})
+		}
+		for _, s1 := range lateSingles {
 			forkModes = append(forkModes, forkMode{s1})
 		}
 		if cfg.TwoForkers {
@@ -89,9 +124,14 @@ func GenSleeper(cfg SleeperCfg, mine func(i int) bool, visit func(d *lref.DAG, d
 				for sleeper := 0; sleeper < n; sleeper++ {
 					for k := cfg.MinSleep; k <= cfg.MaxSleep; k++ {
 						// build phases 1-2 once to learn how many events exist at the return
-						var fks [][2]int
+						var fks [][4]int
+						late := false
 						for _, f1 := range fm {
-							fks = append(fks, [2]int{f1.forker, f1.adopter})
+							fks = append(fks, [4]int{f1.forker, f1.adopter, f1.round, f1.missing})
+							late = late || f1.round > k || (f1.round > 0 && f1.forker == sleeper)
+						}
+						if late {
+							continue // the fork round lies beyond the sleeping phase, or the forker sleeps
 						}
 						base, tips, deads := buildSleeperPrefix(cfg, rot, fks, dr.who, dr.whom, sleeper, k)
 						nb := base.N()
@@ -138,7 +178,7 @@ func GenSleeper(cfg SleeperCfg, mine func(i int) bool, visit func(d *lref.DAG, d
 							}
 							d.AssignFrames()
 							total++
-							visit(d, fmt.Sprintf("sleeper rot=%d forks(forker,adopter)=%v drop=%d>%d sleeper=%d sleep=%d return-parent=%d", rot, fks, dr.who, dr.whom, sleeper, k, ret))
+							visit(d, fmt.Sprintf("sleeper rot=%d forks(forker,adopter,round,missing)=%v drop=%d>%d sleeper=%d sleep=%d return-parent=%d", rot, fks, dr.who, dr.whom, sleeper, k, ret))
 						}
 					}
 				}
@@ -174,7 +214,7 @@ func addEvent(d *lref.DAG, creator, sp int, others []int) int {
 	return len(d.Events) - 1
 }
 
-func buildSleeperPrefix(cfg SleeperCfg, rot int, forks [][2]int, dropWho, dropWhom, sleeper, k int) (*lref.DAG, []int, []int) {
+func buildSleeperPrefix(cfg SleeperCfg, rot int, forks [][4]int, dropWho, dropWhom, sleeper, k int) (*lref.DAG, []int, []int) {
 	n := len(cfg.W.W)
 	d := &lref.DAG{Weights: cfg.W.W, IDs: cfg.W.IDs, Epoch: cfg.Epoch}
 	tips := make([]int, n)
@@ -193,8 +233,14 @@ func buildSleeperPrefix(cfg SleeperCfg, rot int, forks [][2]int, dropWho, dropWh
 		tips[v] = addEvent(d, v, -1, os)
 	}
 	deads := make([]int, len(forks))
+	for fi := range deads {
+		deads[fi] = -1
+	}
 	for fi, fk := range forks {
 		forker := fk[0]
+		if fk[2] > 0 {
+			continue // late fork: emitted in phase 2
+		}
 		// the forker emits two second events with the same self-parent: the first one is left behind
 		var os []int
 		for u := 0; u < n; u++ {
@@ -227,9 +273,21 @@ func buildSleeperPrefix(cfg SleeperCfg, rot int, forks [][2]int, dropWho, dropWh
 				os = append(os, tips[sleeper]) // the sleeper's latest event is known
 			}
 			for fi, fk := range forks {
-				if !adopted[fi] && v == fk[1] {
+				if !adopted[fi] && v == fk[1] && deads[fi] >= 0 {
 					os = append(os, deads[fi])
 					adopted[fi] = true
+				}
+			}
+			for fi, fk := range forks {
+				if fk[2] == r+1 && fk[0] == v {
+					// late fork: a sibling that lacks the tip of validator fk[3]
+					var fo []int
+					for _, p := range os {
+						if d.Events[p].Creator != fk[3] {
+							fo = append(fo, p)
+						}
+					}
+					deads[fi] = addEvent(d, v, tips[v], fo)
 				}
 			}
 			tips[v] = addEvent(d, v, tips[v], os)
